@@ -83,7 +83,8 @@ def floors(tier):
     return {"distinct_nontrivial": 500, "cls:target:Bd": 200, "cls:target:Hd": 200, "cls:target:Hd2": 100,
             "cls:target:Cn": 300, "cls:positional": 300, "cls:value:const": 500, "cls:value:var": 100,
             "cls:value:term": 150, "cls:container:tuple": 100, "cls:container:gen": 100, "cls:container:single": 50,
-            "cls:decl:let": 100, "cls:decl:from": 500, "cls:decl:an_term": 100, "cls:type_filter_needed": 800}
+            "cls:decl:let": 100, "cls:decl:from": 500, "cls:decl:an_term": 100, "cls:type_filter_needed": 800,
+            "cls:domain_without_instances_of_the_type": 150}
 
 
 def gen_case(rng):
@@ -121,6 +122,7 @@ def gen_case(rng):
     elif rng.random() < 0.25:
         decl = "an_term"
     return {"bodies": bodies, "conns": conns, "target": target, "fields": fields, "positional": positional_prefix,
+            "no_instance_in_domain": rng.random() < 0.08,
             "extras": extras, "container": rng.choice(["list", "list", "tuple", "gen", "single"]), "decl": decl}
 
 
@@ -130,6 +132,8 @@ def cases(spec, ctx):
 
 
 def build_data(case):
+    # instances that exist (and are registered) but are NOT in the supplied domain: they must never show up
+    _outside = [Bd(name="a"), Hd(name="b", size=2), Hd2(name="c"), Cn(w=1)]
     bodies = [CLS[b[0]](name=b[1], size=b[2], kind=b[3], tag=b[4] if len(b) > 4 else "t") for b in case["bodies"]]
     conns = [Cn(parent=bodies[p], child=bodies[c], w=w) for p, c, w in case["conns"]]
     base = list(conns if case["target"] == "Cn" else bodies)
@@ -138,6 +142,8 @@ def build_data(case):
         x = Other() if what == "other" else 5 if what == "int" else None if what == "none" else \
             (bodies[0] if case["target"] == "Cn" else conns[0])
         dom.insert(min(pos, len(dom)), x)
+    if case.get("no_instance_in_domain"):
+        dom = [o for o in dom if not isinstance(o, CLS[case["target"]])]
     if case["container"] == "single":
         # a single value given as the domain: only values of the target type (a lone value of another type is not a
         # "mixed-type domain"; the library does not filter it and the statement does not ask for it)
@@ -237,6 +243,8 @@ def check_case(case, ctx):
     ctx.cls("cls:decl:" + case["decl"])
     if case["positional"]:
         ctx.cls("cls:positional")
+    if not [o for o in dom if isinstance(o, T)]:
+        ctx.cls("cls:domain_without_instances_of_the_type")
     for f, v in case["fields"]:
         ctx.cls("cls:value:" + v[0])
     typed = [o for o in dom if isinstance(o, T)]
